@@ -2,9 +2,20 @@
 // disagreement replays exactly from VERIF_SEED.
 package rng
 
+import "os"
+
 type R struct{ s uint64 }
 
-func New(seed uint64) *R { return &R{s: seed*0x9E3779B97F4A7C15 + 0x1234567} }
+// New hashes the seed (splitmix64 finaliser) so that neighbouring seeds give unrelated streams.
+func New(seed uint64) *R {
+	if os.Getenv("VERIF_OLDRNG") != "" { // reproduce runs made before seeds were hashed
+		return &R{s: seed*0x9E3779B97F4A7C15 + 0x1234567}
+	}
+	z := seed + 0x9E3779B97F4A7C15
+	z = (z ^ (z >> 30)) * 0xBF58476D1CE4E5B9
+	z = (z ^ (z >> 27)) * 0x94D049BB133111EB
+	return &R{s: z ^ (z >> 31)}
+}
 
 func (r *R) U64() uint64 {
 	r.s += 0x9E3779B97F4A7C15
